@@ -24,6 +24,8 @@ func checkC07(c *Ctx, r *Report, tier string) {
 	r.Rule("C07.R4", "no ghost vertices: a rejected insert (existing id) has not linked anything into the graph — otherwise a second vertex with the same id competes in every beam and pushes out a true neighbour", 3)
 	noMutationBeforeErrorReturn(c, r, "C07.R4")
 	visitedSetSeeded(c, r, "C07.R4")
+	r.Rule("C07.R5", "helper contracts the neighbour selection relies on: Reverse() gives the selection its own copy of the candidates (the heuristic keeps popping from the original)", 2)
+	borrow(c, r, "C19", "C19.R2", "C07.R5", "")
 	if len(x.missing) > 0 {
 		r.Unk("C07.R1", "index", "anchors", "-", "cannot resolve: "+strings.Join(x.missing, ", "))
 		return
@@ -620,6 +622,9 @@ func checkC10(c *Ctx, r *Report, tier string) {
 	r.Rule("C10.R5", "the ordered partition list (index = routing result) is never built from map iteration", 1)
 	partitionOrderStable(c, r, "C10.R5")
 	routingTableNotMutated(c, r, "C10.R4")
+	r.Rule("C10.R6", "the partition a group of items was routed to is the partition it is handed to: no goroutine of the fan-out captures the loop's partition variable; a partition's snapshot bytes are its own (never a buffer shared with other partitions)", 3)
+	borrow(c, r, "C17", "C17.R1", "C10.R6", "")
+	snapshotIsFresh(c, r, "C10.R6", "partition")
 	// len(partitions) from the count
 	if nd := c.Func("storage", "newDataset"); nd != nil {
 		ok := false
